@@ -147,10 +147,66 @@ func buildValue(t In, v In, typ reflect.Type) reflect.Value {
 	return val
 }
 
+// Hand-written values of named types with unexported fields (reflect.StructOf cannot build those); each
+// comes with its hand-written description, which is what the specification sees.
+type sxInner struct {
+	a int8
+	b []int16
+	c *int64
+}
+type sxNamedSlice []uint32
+type sxOuter struct {
+	flag  bool
+	in    sxInner
+	p     *sxInner
+	names map[string]sxNamedSlice
+	any   interface{}
+	arr   [2]uint16
+	u     uint
+	up    uintptr
+}
+
+func staticValue(name string) (interface{}, J, J) {
+	sc := func(k string) J { return J{"k": k} }
+	innerT := J{"k": "struct", "f": []J{sc("int8"), {"k": "slice", "e": sc("int16")}, {"k": "ptr", "e": sc("int64")}}}
+	x := int64(5)
+	switch name {
+	case "inner":
+		v := sxInner{1, []int16{1, 2, 3}, &x}
+		return v, innerT, J{"f": []J{{"x": 1}, {"nil": false, "el": []J{{"x": 1}, {"x": 2}, {"x": 3}}}, {"nil": false, "to": J{"x": 5}}}}
+	case "innerptr":
+		v := &sxInner{1, nil, nil}
+		return v, J{"k": "ptr", "e": innerT}, J{"nil": false, "to": J{"f": []J{{"x": 1}, {"nil": true, "el": []J{}}, {"nil": true}}}}
+	case "outer":
+		v := sxOuter{true, sxInner{2, []int16{}, nil}, &sxInner{3, []int16{9}, &x},
+			map[string]sxNamedSlice{"ab": {1, 2}, "xyz": nil}, sxNamedSlice{7}, [2]uint16{1, 2}, 3, 4}
+		outerT := J{"k": "struct", "f": []J{sc("bool"), innerT, {"k": "ptr", "e": innerT},
+			{"k": "map", "key": sc("string"), "e": J{"k": "slice", "e": sc("uint32")}}, sc("iface"),
+			{"k": "array", "n": 2, "e": sc("uint16")}, sc("uint"), sc("uintptr")}}
+		val := J{"f": []J{{"x": 1},
+			{"f": []J{{"x": 2}, {"nil": false, "el": []J{}}, {"nil": true}}},
+			{"nil": false, "to": J{"f": []J{{"x": 3}, {"nil": false, "el": []J{{"x": 9}}}, {"nil": false, "to": J{"x": 5}}}}},
+			{"nil": false, "kv": [][]J{{{"n": 2, "x": 1}, {"nil": false, "el": []J{{"x": 1}, {"x": 2}}}}, {{"n": 3, "x": 2}, {"nil": true, "el": []J{}}}}},
+			{"nil": false, "dt": J{"k": "slice", "e": sc("uint32")}, "dyn": J{"nil": false, "el": []J{{"x": 7}}}},
+			{"el": []J{{"x": 1}, {"x": 2}}}, {"x": 3}, {"x": 4}}}
+		return v, outerT, val
+	case "outerslice":
+		a, ta, va := staticValue("outer")
+		o := a.(sxOuter)
+		return []sxOuter{o, o}, J{"k": "slice", "e": ta}, J{"nil": false, "el": []J{va, va}}
+	}
+	fatalf("size: unknown static value %q", name)
+	return nil, nil, nil
+}
+
 func execSize(in In, em *Emitter) {
 	o := J{}
 	var arg interface{}
-	if !in.Bool("topnil") {
+	if in.has("static") {
+		var t, v J
+		arg, t, v = staticValue(in.S("static"))
+		in.m["t"], in.m["v"] = t, v
+	} else if !in.Bool("topnil") {
 		t, v := in.O("t"), in.O("v")
 		typ := buildType(t, v)
 		arg = buildValue(t, v, typ).Interface()
@@ -315,6 +371,9 @@ func (sg *sizeGen) val(t J, depth int, uniq bool) J {
 func genC20(g *Gen) {
 	sg := &sizeGen{r: g.R}
 	g.Case("size", J{"topnil": true})
+	for _, name := range []string{"inner", "innerptr", "outer", "outerslice"} {
+		g.Case("size", J{"topnil": false, "static": name})
+	}
 	// every scalar kind at top level, in a slice, an array, behind a pointer, in an interface, as map value
 	for _, k := range scalarKinds {
 		st := J{"k": k}
